@@ -163,7 +163,8 @@ pub fn run_session(mut src: Source, supported: Arc<BTreeSet<String>>, properties
       Outcome::Err { name, .. } => {
         if let Some(f) = &verdict.fault { bump(&mut stats.faults_fired, &fault_family(f)); }
         bump(&mut stats.reach, &format!("err:{}", name));
-        stats.combos_err.insert(verdict.combo.clone());
+        // baseline discovery: only rejections of statements the model considers well-defined and fault-free count
+        if verdict.fault.is_none() { stats.combos_err.insert(verdict.combo.clone()); }
         if verdict.must == Must::Ok {
           found = Some(viol("wrong-rejection", verdict.combo.clone(), "statement accepted (combination is in the supported baseline)".into(), outcome.show()));
         } else {
@@ -191,7 +192,7 @@ pub fn run_session(mut src: Source, supported: Arc<BTreeSet<String>>, properties
       }
       Outcome::Ok(ret) => {
         bump(&mut stats.reach, "ok");
-        stats.combos_ok.insert(verdict.combo.clone());
+        if verdict.fault.is_none() && !matches!(verdict.after, After::Unknown(..)) { stats.combos_ok.insert(verdict.combo.clone()); }
         if verdict.must == Must::Err {
           let form = match &op { Op::IdxAssign { sub, .. } | Op::OpAssign { sub: Some(sub), .. } => format!("|{}", sub.form()), _ => String::new() };
           found = Some(viol("missing-rejection", format!("{}{}", fault_family(verdict.fault.as_deref().unwrap_or("?")), form), format!("an error ({})", verdict.fault.clone().unwrap_or_default()), format!("{} ; after: {}", outcome.show(), show_store(&observed))));
